@@ -36,10 +36,36 @@ def k1_rules(ctx, prop):
 
 
 def C03(ctx):
+    # (a) the orders themselves
+    ctx.only = ("K1.",
+                # (b) where the ordered operations sit: a plain access to an object that is handed over must be sequenced before the releasing /
+                #     after the acquiring operation, a fence must lie between the accesses it orders - the publication-order rules of all containers
+                "VBQ.cell-protocol", "NQ.protocol", "OWN.move-out-destroy", "MSQ.protocol", "RQ.protocol", "KF.protocol", "SCQ.settle-slot",
+                "VHM.insert-publication", "VHM.marker", "VHM.grow", "VHM.reader-validation", "VHM.pool-lock", "WSD.protocol", "WSD.stable-slot",
+                "SL.protocol", "LR.toggle", "LR.table", "HM.insert", "HP.protocol", "HE.protocol", "EBR.protocol", "QSBR.protocol", "STAMP.protocol",
+                "LFRC.protocol", "HP.retire", "HE.retire", "LIST.push-relink", "HE.era-after-load")
     k1_rules(ctx, "C03")
-    return ("Decides the memory-order contract of the source: every ordered atomic operation / fence the code relies on "
+    scheme_rules(ctx)
+    queues.michael_scott(ctx)
+    queues.ramalhete(ctx)
+    queues.nikolaev(ctx)
+    queues.vyukov_bounded(ctx)
+    queues.kfifo(ctx)
+    harris.insert_protocol(ctx)
+    vyukov.reader_validation(ctx)
+    vyukov.marker_protocol(ctx)
+    vyukov.insert_publication(ctx)
+    vyukov.pool_locking(ctx)
+    vyukov.grow_protocol(ctx)
+    deque.rules(ctx)
+    deque.stable_slot(ctx)
+    seqlock.rules(ctx)
+    leftright.rules(ctx)
+    return ("Decides (a) the memory-order contract of the source: every ordered atomic operation / fence the code relies on "
             "(frozen per function, field and operation kind, plus the author's numbered synchronisation comments re-parsed live) "
-            "is present with at least the required order in the production and the TSan build variant.",
+            "is present with at least the required order in the production and the TSan build variant; (b) the position of those operations: "
+            "in every publish / hand-over protocol of the library the plain accesses to the object that changes hands are sequenced before the "
+            "releasing and after the acquiring operation, and fences lie between the accesses they order (the order rules of all containers and reclaimers).",
             "sufficiency of the annotated happens-before edges (absence of races in all executions)")
 
 
